@@ -7,7 +7,7 @@ from fractions import Fraction as Fr
 
 import numpy as np
 
-from common import qlit, natlit, blit, lst, tup, opt, coq_bad_indices, CoqError
+from common import qlit, natlit, blit, lst, tup, opt, coq_bad_indices, coq_eval_file, CoqError
 
 PROP = "C13"
 PROPERTY_FILE = "Properties/C13.v"
@@ -15,41 +15,78 @@ GEN_DEPS = []
 RULE = ("cases: create_from_fixed_nb_of_points (dyadic h, nb 0..60, dim 1..3), CTMCCredit (dim 1..3, symmetric or not, dyadic "
         "thresholds incl. rejected ones, dyadic truncation bounds injected for the root search), refine^n (n<=6) of random dyadic "
         "admissible axes and of constructor outputs with shared/per-axis storage and aliases of origin_coordinate taken before "
-        "refine; oracle stream: every constructor (uniform, fixed, geometric, with-bounds, probability-step, credit) on step and "
-        "real models.  non-trivial = distinct case with >= 2 states on a side or >= 1 refinement")
-MODELLED = ["numpy arrays as lists of Q; np.insert/np.concatenate/list comprehension semantics (tied by exact correspondence)",
-            "np.linspace / np.geomspace axes (CTMCUniformGrid, CTMCGridGeometric) and root-found axes (CTMCGridProbabilityStep, "
-            "compute_truncation): no Coq model of the numerics; covered by C13_assembly_admissible + the oracle on the implementation",
+        "refine; CTMCUniformGrid.__init__ dim 1..3 with injected dyadic bounds and dyadic linspace step (exact, incl. rejected "
+        "int(|l|/h) < 2); CTMCGridGeometric.__init__ (LevyModel / LevyCopulaModel / LevyDrivenSDEModel) and create_with_bounds, "
+        "dim 1..3, nb 0..10, bounds with rational common ratios incl. rejected ratios <= 1 (1e-12); np.geomspace states of real-model "
+        "and random-bound geometric grids against the R model (interval lemmas, 1e-12); oracle stream: every constructor (uniform, "
+        "fixed, geometric, with-bounds, probability-step dim 1..3, credit) on step and real models; heavy-tailed models "
+        "(CGMY/HEM/Merton/VG with slow tails, p up to 0.999999): refusal or promised tail by closed-form mpmath tails; "
+        "LevyDrivenSDEModel branch of compute_truncation (dim 1..3) against its driver.  non-trivial = distinct case with >= 2 "
+        "states on a side or >= 1 refinement")
+MODELLED = ["numpy arrays as lists of Q (lists of R for np.geomspace axes with arbitrary real bounds); np.insert/np.concatenate/list "
+            "comprehension semantics (tied by exact correspondence)",
+            "np.linspace as start + i*(stop-start)/(num-1) over Q: tied EXACTLY on dyadic bounds/steps (uniform_exact group, dim 1-3) "
+            "and within 1e-12 on root-found bounds; int(x) as floor of the exact quotient (cases where the float division rounds "
+            "across an integer are decided exactly and counted, none met)",
+            "np.geomspace as start*(stop/start)^(i/(num-1)): over R for every real bound (gs_point = a*exp(i/m*ln(b/a)); tied by "
+            "interval-arithmetic lemmas, 1e-12, on real-model and random bounds) and over Q for bounds with a rational common ratio "
+            "(tied by vm_compute, 1e-12; end points, -h, 0, h, origin index, truncations exactly); C13_geometric_axis_Q2R links the two",
+            "root finders (brentq) and quadrature are NOT modelled: truncation bounds are inputs of the model; probability-step axes "
+            "are modelled under the root finder's specification (F strictly increasing, F(root x p) - F x = p while F x + p <= M) while the tail is "
+            "not exhausted; the origin-adjacent gaps and the extrapolated end gaps of CTMCGridProbabilityStep are oracle-only",
             "Coordinates.__imul__ (in-place doubling): one mutable cell g_o; aliases checked by the correspondence"]
 ASSUMPTIONS = ["grid.middle returns a point strictly inside a gap, and x/2 next to the origin (hypotheses mid_between, mid_left0, "
                "mid_right0): proved for CTMCGrid.middle (C13_amid_ok); for CTMCGridProbabilityStep.middle checked by the oracle on "
                "every refined grid (brentq bracket), not proved",
-               "truncation bounds / probability-step points are inputs of the model (root finders are not modelled); their promised "
-               "tail probability is monitored on the implementation"]
+               "truncation bounds are inputs of the model (root finders are not modelled); their promised tail probability is "
+               "monitored on the implementation twice: with the model's own integrate and with closed-form tails (mpmath) that do "
+               "not use /repo, incl. heavy-tailed regimes where the constructor must refuse or deliver",
+               "C13_probstep_gaps / C13_probstep_refine assume the root finder's specification (exact root, strictly increasing "
+               "cumulative jump probability); on the implementation the per-gap probability p (and p/2 after one refine) is monitored "
+               "within 1e-6",
+               "Coq standard-library real-number axioms (classical reals, functional extensionality) for the R theorems"]
 THEOREM_NOTES = {
     "C13_fixed_admissible": "for the repaired constructor (ValueError for nb_of_points < 2, commit 'fix: create_from_fixed_nb_of_points ...' on fix-grid)",
     "C13_credit_admissible": "for the repaired constructor (ValueError unless every axis is strictly increasing, commit 'fix: CTMCCredit accepted ...' on fix-grid)",
     "C13_uniform_admissible": "for the repaired constructor (ValueError unless int(|l|/h) >= 2 and int(r/h) >= 2: fix-grid + fix-grid2); both end "
-                              "points are the truncation bounds; linspace modelled as its mathematical sequence, tied with tolerance 1e-12; int() as floor",
+                              "points are the truncation bounds; linspace modelled as its mathematical sequence, tied exactly on dyadic steps and with "
+                              "tolerance 1e-12 otherwise; int() as floor",
+    "C13_uniform_grid_wf / C13_uniform_refine_n": "the grid object of CTMCUniformGrid (any dimension: one shared axis) and any number of refinements of it",
+    "C13_geometric_admissible / _guards_suffice / _grid_wf / _refine_n": "Q model: truncation bounds with rational common ratios l = -h*ql^(nb-1), r = h*qr^(nb-1) "
+                              "(ql, qr are witnesses, not computed by the code); guards nb >= 2, l < -h, h < r as in the code",
+    "C13_geometric_admissible_R / _guards_suffice_R / C13_geomspace_R_axis / C13_geometric_refine_n_R": "R model: EVERY real l, h, r, nb; np.geomspace as "
+                              "a*exp(i/(n-1)*ln(b/a)) (numpy: sign*10^(log10|a| + i*step), end points overwritten: mathematically equal, tied to 1e-12)",
+    "C13_refine_n_R / C13_refine_step_R": "CTMCGrid.refine with the arithmetic-mean middle on real axes (R twins of C13_refine_n_axis_admissible / C13_refine_nests)",
+    "C13_probstep_gaps / C13_probstep_refine": "under the root finder's specification only (F strictly increasing; F(root x p) - F x = p required only while F x + p <= M, the mass available; n steps with F x + n*p <= M; satisfiable: C13_probstep_nonvacuous); right "
+                              "half axis beyond h while the tail is not exhausted (the `p_left < p/2` exit with its extrapolated last point and the `except` "
+                              "branch of compute_right_axis are not modelled); the left half axis is the mirror image and is not stated separately",
     "middle": "the n-level theorems need one STATELESS middle (proved instance: the arithmetic mean); CTMCGridProbabilityStep.middle reads grid.h: "
-              "only the one-step theorems C13_refine_nests / C13_refine_admissible_axis apply to it (oracle-checked premises)",
+              "only the one-step theorems C13_refine_nests_axis / C13_refine_admissible_axis apply to it (oracle-checked premises), plus C13_probstep_refine "
+              "away from the origin",
     "0 < h": "assumed by every theorem; create_from_fixed_nb_of_points does not reject h <= 0 (h = -0.5 returns a decreasing axis): observation, not repaired",
-    "C13_geometric": "not a theorem: CTMCGridGeometric / CTMCGridProbabilityStep axes are covered by C13_assembly_admissible "
-                     "(premises checked by the oracle on the implementation's arrays), not by a model of geomspace / the root searches",
-    "tail probability": "not proved (numerical root search); monitored: mass(h/2, r)/mass(h/2, inf) within 1e-6 of the target",
+    "tail probability": "not proved (numerical root search); monitored: mass(h/2, r)/mass(h/2, inf) within 2% of the cut tail of the target, with the model's own "
+                        "integrate and with independent closed-form tails; in heavy-tailed regimes the constructor must refuse (ValueError) or deliver",
+    "constructor exceptions": "an exception that is neither an argument guard nor the root search's refusal (no sign change on [-100, 100]) is reported as a violation",
 }
-LEVEL_TEXT = ("Proof: 16 Coq theorems (closed under the global context) state that create_from_fixed_nb_of_points, CTMCUniformGrid (linspace as its mathematical sequence) and CTMCCredit return, "
-              "for every argument they accept, strictly increasing axes with 0 at the origin index and -h/+h as neighbours and end points "
-              "at the reported truncations; that any assembly left++[0]++right with pivot len(left) does; and that refine - modelled as "
-              "the np.insert loop, proved equal to the interleaving - keeps every old state at 2^n times its index, inserts exactly one "
-              "state strictly inside each gap at grid.middle, halves h, doubles the (shared) origin index and leaves the truncations "
-              "unchanged, for every n and every admissible grid and every middle function with the stated three properties. The model is "
-              "tied to /repo by exact vm_compute correspondence on dyadic inputs (constructors, refine^n, aliasing); linspace/geomspace/"
-              "root-found axes are covered by the assembly theorem plus an oracle on the implementation. Partial: promised tail / "
-              "per-step probabilities are monitored, not proved.")
-LEVEL_NOTE = ("Trusted: Coq kernel + vm_compute; floats modelled as Q (exact on the dyadic inputs of the correspondence); numpy array "
-              "semantics; root finders (brentq) not modelled.")
-TECHNIQUE = "Coq proof over Q/list (induction on axes, lra/lia) + exact vm_compute correspondence on dyadic grids + implementation oracle"
+LEVEL_TEXT = ("Proof: 31 Coq theorems + 4 examples (Q theorems closed under the global context; R theorems under the standard real-number axioms) "
+              "state that create_from_fixed_nb_of_points, CTMCUniformGrid (np.linspace as its mathematical sequence), CTMCGridGeometric (both "
+              "constructors; np.geomspace as start*(stop/start)^(i/(n-1)) over R for every real bound, and over Q for rational common ratios, the "
+              "two linked by a theorem) and CTMCCredit return, for every argument they accept, strictly increasing axes with 0 at the origin "
+              "index and -h/+h as neighbours and end points at the reported truncations; that any assembly left++[0]++right with pivot len(left) "
+              "does (over Q and over R); and that refine - modelled as the np.insert loop, proved equal to the interleaving - keeps every old "
+              "state at 2^n times its index, inserts exactly one state strictly inside each gap at grid.middle, halves h, doubles the (shared) "
+              "origin index and leaves the truncations unchanged, for every n, every admissible grid (in particular every uniform and geometric "
+              "grid, composed theorems) and every middle function with the stated three properties.  Probability-step axes: under the root "
+              "finder's specification every gap carries the requested probability p and refining yields the axis of step p/2.  The model is "
+              "tied to /repo by exact vm_compute correspondence on dyadic inputs (fixed, credit, uniform with dyadic linspace step, refine^n, "
+              "aliasing), by 1e-12 correspondence for np.geomspace (vm_compute for rational ratios, interval-arithmetic lemmas for real-model "
+              "and random bounds) and by an oracle on every constructor of the implementation (dim 1-3, LevyModel / copula / SDE-model "
+              "arguments).  Partial: promised tail / per-step probabilities are monitored (own integrate + independent closed-form tails, heavy "
+              "tails included), not proved; brentq and the quadrature are specified, never verified.")
+LEVEL_NOTE = ("Trusted: Coq kernel + vm_compute + coq-interval; floats modelled as Q / R (exact on the dyadic inputs of the correspondence, 1e-12 "
+              "elsewhere); numpy array semantics; root finders (brentq) not modelled; mpmath for the independent tails.")
+TECHNIQUE = ("Coq proof over Q/list and R/list (induction on axes, lra/lia/nra, exp/ln monotonicity) + exact vm_compute correspondence on dyadic grids "
+             "+ interval-arithmetic case lemmas for np.geomspace + implementation oracle with independent closed-form tail masses")
 
 
 # ------------------------------------------------------------------------------------------ oracle predicates
@@ -177,22 +214,34 @@ def build_credit(l, r, h, levels, sym):
 
 GUARD_MESSAGES = ("h is too large for the truncation bounds", "expected nb_of_points", "CTMCCredit grid error",
                   "level a smaller than the last left point", "the number of points is greater than")
+# the truncation root search refuses a model whose requested quantile lies outside its search interval [-100, 100]
+# (scipy brentq: no sign change on the bracket): a refusal, not a grid -- allowed by the property ("returns ...")
+ROOT_REFUSAL = "f(a) and f(b) must have different signs"
 
 
 def is_guard(e) -> bool:
-    """a ValueError raised by one of the constructors' own argument guards (a legitimate rejection); any other ValueError
-    (e.g. brentq: f(a) and f(b) must have different signs) is an uncontrolled failure and is reported separately"""
+    """a ValueError raised by one of the constructors' own argument guards (a legitimate rejection)"""
     return isinstance(e, ValueError) and any(m in str(e) for m in GUARD_MESSAGES)
 
 
-def note_exception(res, table, e, ctor, args):
+def is_root_refusal(e) -> bool:
+    return isinstance(e, ValueError) and ROOT_REFUSAL in str(e)
+
+
+def note_exception(res, table, e, ctor, args, viol=None):
+    """argument guard / root-search refusal: counted.  ANY other exception escaping a constructor (TypeError, OverflowError,
+    ZeroDivisionError, an unrelated ValueError ...) is a violation of 'every constructor returns ...': the constructor
+    neither returned a grid nor refused its arguments in a controlled way."""
     if is_guard(e):
         res.bump(table, "guard ValueError")
+    elif is_root_refusal(e):
+        res.bump(table, "root search refuses (quantile outside [-100, 100])")
     else:
         res.bump(table, f"UNEXPECTED {type(e).__name__}")
         res.bump("unexpected_constructor_exception", f"{ctor}: {type(e).__name__}: {str(e)[:70]}")
-        if len(res.notes) < 12:
-            res.notes.append(f"{ctor} raised {type(e).__name__} (not an argument guard): {str(e)[:100]} args={json.dumps(args, default=str)[:160]}")
+        res.violation(f"{ctor} raises {type(e).__name__} that is neither an argument guard nor a root-search refusal",
+                      {"kind": "ctor-exception", "ctor": ctor, "args": json.loads(json.dumps(args, default=str)),
+                       "exception": f"{type(e).__name__}: {str(e)[:200]}"})
 
 
 def try_build(f, *a):
@@ -330,9 +379,17 @@ def correspond(res):
                    refine_cases))
 
     # ---- 4. oracle stream: every constructor on step and real models ------------------------
+    del GEOM_R_GRIDS[:]
     _oracle_constructors(res, rng, 1 if not thorough else 6, viol)
     _tail_probabilities(res, rng, viol, thorough)
     _probstep_massless_gaps(res, viol)
+    # ---- 5. wave 5: linspace / geomspace models, heavy tails, probability-step n-d, SDE branch
+    rng5 = random.Random(res.seed + 5)
+    groups.append(_geometric_cases(res, rng5, viol, thorough))
+    groups.append(_uniform_exact_cases(res, rng5, viol, thorough))
+    _heavy_tail_monitor(res, rng5, viol, thorough)
+    _probstep_nd_and_sde(res, rng5, viol, thorough)
+    _geomspace_R_tie(res, rng5, thorough)
 
     groups.append(("uniform", "Q * Q * Q * option (list Q * nat)",
                    "fun c => match c with (l, h, r, e) => match uniform_axis l h r, e with "
@@ -341,7 +398,7 @@ def correspond(res):
                    "forallb (fun xy => Qle_bool (Qabs (fst xy - snd xy)) ((1 + Qabs (snd xy)) * (1 # 1000000000000))) (combine xs ys) "
                    "| _, _ => false end end", list(UNIFORM_CASES)))
     # ---- Coq side ---------------------------------------------------------------------------
-    header = "From Coq Require Import ZArith QArith Qabs List Bool.\nFrom RV Require Import Base.QB Model.Grid.\nOpen Scope Q_scope."
+    header = "From Coq Require Import ZArith QArith Qabs List Bool.\nFrom RV Require Import Base.QB Model.Grid Model.GridGeom.\nOpen Scope Q_scope."
     res.case_lemmas += len(groups)
     bad = coq_bad_indices(PROP, "cases", header, groups, timeout=900)
     for gname, ty, chk, cases in groups:
@@ -349,6 +406,302 @@ def correspond(res):
             res.broke(f"correspondence {gname}", f"model and implementation differ on {len(bad[gname])} case(s), first: {cases[bad[gname][0]][:1500]}")
         else:
             res.case_ok += 1
+
+
+# ------------------------------------------------------------------------------------------ wave 5: linspace / geomspace ties
+TOL12 = "(1 # 1000000000000)"
+GEOM_CHECK = ("fun c => match c with (h, ql, qr, nb, dim, e) => match geometric_grid h ql qr nb dim, e with "
+              "| None, None => true "
+              "| Some g, Some (axes, h2, o, tr) => Nat.eqb (length (g_axes g)) (length axes) && "
+              f"forallb (fun p => qlist_close {TOL12} (fst p) (snd p)) (combine (g_axes g) axes) && "
+              "Qeq_bool (g_h g) h2 && Nat.eqb (g_o g) o && qpl_eqb (g_trunc g) tr "
+              "| _, _ => false end end")
+
+
+def dummy_sde_model(dim):
+    from rpylib.model.levydrivensde.levydrivensde import LevyDrivenSDEModel
+    return LevyDrivenSDEModel(driver=dummy_model(dim))
+
+
+def _geometric_cases(res, rng, viol, thorough):
+    """CTMCGridGeometric.create_with_bounds and CTMCGridGeometric.__init__ (LevyModel, LevyCopulaModel and LevyDrivenSDEModel
+    arguments; dyadic truncation bounds injected for the root search) on bounds with a rational common ratio:
+    l = -h*ql^(nb-1), r = h*qr^(nb-1) exactly representable.  numpy goes through log10 and 10**x: interior states are
+    compared with relative tolerance 1e-12, h / origin index / truncations (= end points) exactly."""
+    from rpylib.grid.spatial import CTMCGridGeometric
+    ratios = [Fr(2), Fr(3, 2), Fr(5, 4), Fr(3), Fr(9, 8), Fr(2), Fr(3, 2), Fr(1), Fr(1, 2)]
+    cases = []
+    reps = 3 if not thorough else 12
+    for h in (0.25, 0.125, 0.5, 1.0):
+        for nb in (0, 1, 2, 3, 4, 5, 7, 10):
+            for _ in range(reps):
+                ql, qr = rng.choice(ratios), rng.choice(ratios)
+                dim = rng.choice([1, 1, 2, 3])
+                e = max(nb - 1, 0)
+                lq, rq = -(Fr(h) * ql ** e), Fr(h) * qr ** e
+                l, r = float(lq), float(rq)
+                assert Fr(l) == lq and Fr(r) == rq
+                how = rng.choice(["bounds", "init", "init-sde"])
+                args = {"h": h, "truncations": [l, r], "dim": dim, "nb": nb, "how": how}
+                try:
+                    if how == "bounds":
+                        g = CTMCGridGeometric.create_with_bounds(h=h, truncations=(l, r), dimension=dim, nb_of_points_on_each_side=nb)
+                    else:
+                        with _patched_truncation(l, r):
+                            g = CTMCGridGeometric(h=h, model=(dummy_model(dim) if how == "init" else dummy_sde_model(dim)),
+                                                  nb_of_points_on_each_side=nb)
+                except Exception as ex:  # noqa
+                    g = None
+                    note_exception(res, "geomq_outcome", ex, "CTMCGridGeometric(" + how + ")", args)
+                    if not is_guard(ex):
+                        continue
+                res.count(("geomq", h, str(ql), str(qr), nb, dim, how), nontrivial=nb >= 2, kind=f"CTMCGridGeometric {how} (rational ratio)")
+                res.bump("geomq_ratio", f"ql={ql} qr={qr}")
+                if g is not None:
+                    res.bump("geomq_outcome", "grid")
+                    why = grid_reason(g)
+                    if why:
+                        viol("CTMCGridGeometric returns a malformed grid: " + why.split(":")[-1].strip()[:60], kind="ctor",
+                             ctor="CTMCGridGeometric.create_with_bounds", args=args, reason=why, finding="F-C13-4")
+                    elif len(g.axes) != dim or origin_indices(g) != [nb] * dim or any(len(a) != 2 * nb + 1 for a in g.axes) \
+                            or any(tuple(map(float, t)) != (l, r) for t in g.truncations):
+                        viol("CTMCGridGeometric: dimension / origin index / number of states / truncations not as promised", kind="ctor",
+                             ctor="CTMCGridGeometric.create_with_bounds", args=args)
+                cases.append(f"({qlit(h)}, {qlit(ql)}, {qlit(qr)}, {natlit(nb)}, {natlit(dim)}, {opt(g, lambda gg: snap_lit(snapshot(gg)))})")
+    return ("geomq", f"Q * Q * Q * nat * nat * option ({GRID_T})", GEOM_CHECK, cases)
+
+
+def _uniform_exact_cases(res, rng, viol, thorough):
+    """CTMCUniformGrid.__init__ (dimension 1-3) with dyadic truncation bounds injected for the root search and a dyadic
+    linspace step (l = -k*h, or int(|l|/h) - 1 a power of two): every float operation of np.linspace is exact, the axes are
+    compared EXACTLY with uniform_grid (incl. rejected arguments: int(|l|/h) < 2 or int(r/h) < 2)."""
+    from rpylib.grid.spatial import CTMCUniformGrid
+    cases = []
+
+    def side(h):
+        if rng.random() < 0.5:
+            return rng.randrange(0, 13) * h                       # a multiple of h (k = 0, 1: rejected)
+        n = rng.choice([2, 3, 5, 9, 17])                          # n - 1 is a power of two -> dyadic step
+        return n * h + rng.randrange(0, 8) * h / 8
+    n = 120 if not thorough else 1200
+    for _ in range(n):
+        h = rng.choice([0.25, 0.125, 0.5, 1.0, 0.0625])
+        l, r = -side(h), side(h)
+        if l == 0 or r == 0:
+            l, r = l - h / 4, r + h / 4                            # the theorem (and the code) want l < 0 < r
+        dim = rng.choice([1, 1, 2, 3])
+        args = {"h": h, "l": l, "r": r, "dim": dim}
+        try:
+            with _patched_truncation(l, r):
+                g = CTMCUniformGrid(h=h, model=dummy_model(dim))
+        except Exception as ex:  # noqa
+            g = None
+            note_exception(res, "uniform_exact_outcome", ex, "CTMCUniformGrid(injected bounds)", args)
+            if not is_guard(ex):
+                continue
+        res.count(("uniform-exact", h, l, r, dim), nontrivial=g is not None, kind="CTMCUniformGrid (dyadic linspace, exact)")
+        if g is not None:
+            res.bump("uniform_exact_outcome", "grid")
+            why = grid_reason(g)
+            if why:
+                viol("CTMCUniformGrid returns a malformed grid: " + why.split(":")[-1].strip()[:60], kind="uniform-exact",
+                     reason=why, finding="F-C13-1", **args)
+            elif any(tuple(map(float, t)) != (l, r) for t in g.truncations) or len(g.axes) != dim:
+                viol("CTMCUniformGrid: truncations are not the bounds of the root search / wrong dimension", kind="uniform-exact", **args)
+        cases.append(f"({qlit(l)}, {qlit(h)}, {qlit(r)}, {natlit(dim)}, {opt(g, lambda gg: snap_lit(snapshot(gg)))})")
+    return ("uniform_exact", f"Q * Q * Q * nat * option ({GRID_T})",
+            "fun c => match c with (l, h, r, dim, e) => ogrid_eqb (uniform_grid l h r dim) e end", cases)
+
+
+def rlit(x) -> str:
+    fr = Fr(x)
+    return f"({fr.numerator} / {fr.denominator})" if fr >= 0 else f"(- {-fr.numerator} / {fr.denominator})"
+
+
+GEOM_R_GRIDS = []      # (l, h, r, nb, axis) of CTMCGridGeometric grids met by the oracle stream (non-dyadic real bounds)
+
+
+def _geomspace_R_tie(res, rng, thorough):
+    """the R model geomspace_R (point i = a*exp(i/m*ln(b/a))) against np.geomspace as used by CTMCGridGeometric on arbitrary
+    (non-dyadic) bounds: real models through the root search and random create_with_bounds arguments.  One Coq lemma per
+    state, proved by the `interval` tactic (90 bits):  |gs_point a b m i - state| <= 1e-12*(1+|state|); end points and the
+    three states -h, 0, h are compared exactly on the Python side (they are theorems of the model)."""
+    from rpylib.grid.spatial import CTMCGridGeometric
+    grids = list(GEOM_R_GRIDS[: (12 if not thorough else 60)])
+    for _ in range(6 if not thorough else 30):
+        h = rng.choice([0.01, 0.1, 0.25, 0.3])
+        l, r = -rng.uniform(1.01 * h, 5.0), rng.uniform(1.01 * h, 5.0)
+        nb = rng.randrange(2, 10)
+        g = CTMCGridGeometric.create_with_bounds(h=h, truncations=(l, r), dimension=1, nb_of_points_on_each_side=nb)
+        grids.append((l, h, r, nb, [float(x) for x in g.axes[0]]))
+    lemmas, n = [], 0
+    for (l, h, r, nb, ax) in grids:
+        if len(ax) != 2 * nb + 1 or ax[0] != l or ax[-1] != r or ax[nb - 1] != -h or ax[nb] != 0 or ax[nb + 1] != h:
+            res.broke("correspondence geomspace_R", f"end points / -h, 0, h of the implementation's axis are not those of the model: l={l} h={h} r={r} nb={nb}")
+            continue
+        res.count(("geomR", l, h, r, nb), kind="CTMCGridGeometric vs geomspace_R (interval)")
+        for i in range(nb):
+            for (a, b, v) in ((l, -h, ax[i]), (h, r, ax[nb + 1 + i])):
+                tol = Fr(1, 10 ** 12) * (1 + abs(Fr(v)))
+                lemmas.append(f"Lemma c{n} : Rabs (gs_point {rlit(a)} {rlit(b)} {nb - 1} {i} - {rlit(v)}) <= {rlit(tol)}.\n"
+                              f"Proof. unfold gs_point. interval with (i_prec 90). Qed.")
+                n += 1
+    res.bump("geomspace_R_states", n)
+    if not lemmas:
+        res.broke("correspondence geomspace_R", "no case: nothing would be compared")
+        return
+    text = ("From Coq Require Import Reals.\nFrom Interval Require Import Tactic.\nFrom RV Require Import Model.GridGeom.\n"
+            "Open Scope R_scope.\n" + "\n".join(lemmas) + "\n")
+    res.case_lemmas += 1
+    rc, out = coq_eval_file(PROP, "geomspace_R", text, timeout=600)
+    if rc != 0:
+        res.broke("correspondence geomspace_R", f"a state of np.geomspace is not within 1e-12 of the R model: {out[-700:]}")
+    else:
+        res.case_ok += 1
+
+
+# ------------------------------------------------------------------------------------------ wave 5: promised tail, heavy tails
+HEAVY_SPECS = [
+    {"family": "CGMY", "kwargs": dict(c=1.0, g=5.0, m=0.02, y=0.5)},       # slowly decaying right tail
+    {"family": "CGMY", "kwargs": dict(c=0.5, g=0.03, m=4.0, y=-0.5)},      # slowly decaying left tail
+    {"family": "CGMY", "kwargs": dict(c=0.3, g=0.4, m=0.3, y=1.3)},
+    {"family": "CGMY", "kwargs": dict(c=1.0, g=2.0, m=0.08, y=0.2)},
+    {"family": "HEM", "kwargs": dict(sigma=0.1, p=0.5, eta1=0.05, eta2=20.0, intensity=3.0)},
+    {"family": "HEM", "kwargs": dict(sigma=0.1, p=0.3, eta1=12.0, eta2=0.12, intensity=5.0)},
+    {"family": "MERTON", "kwargs": dict(sigma=0.1, mu_j=0.0, sigma_j=40.0, intensity=3.0)},
+    {"family": "VG", "kwargs": dict(sigma=3.0, nu=5.0, theta=2.5)},
+]
+
+
+def _independent_tail(res, viol, spec, h, grid, ctor, args, p):
+    """the grid's reported truncation bounds against the closed-form tail of the family (mpmath, independent of /repo):
+    both sides must carry the REQUESTED probability (the bound is the p-quantile of the jumps beyond the first cell)"""
+    import c13_tails as T
+    if not T.supported(spec):
+        return
+    l, r = (float(v) for v in grid.truncations[0])
+    cl, cr = T.coverage(spec, h, l, r)
+    tol = max(1e-9, 0.02 * (1 - p))
+    ok = abs(cl - p) <= tol and abs(cr - p) <= tol
+    res.bump("independent_tail", f"{ctor}: {'ok' if ok else 'off'}")
+    if not ok:
+        viol(f"{ctor}: the reported truncation bounds do not carry the promised tail probability (closed-form tail)", kind="tail-indep",
+             ctor=ctor, spec=spec, h=h, p=p, args=args, left=float(cl), right=float(cr), bounds=[l, r])
+
+
+def _build_for_tail(ctor, model, h, p):
+    from rpylib.grid.spatial import CTMCUniformGrid, CTMCGridGeometric, CTMCCredit
+    if ctor == "CTMCUniformGrid":
+        return CTMCUniformGrid(h=h, model=model, truncation_probability=p)
+    if ctor == "CTMCGridGeometric":
+        return CTMCGridGeometric(h=h, model=model, nb_of_points_on_each_side=6, truncation_probability=p)
+    return CTMCCredit(h=h, level_a=-3.0 * h, model=model)            # takes no probability: promises the default 0.99999
+
+
+def _heavy_tail_monitor(res, rng, viol, thorough):
+    """heavy-tailed regimes (small exponential rates, wide jump laws; large p): EITHER the constructor refuses (guard /
+    root-search ValueError) OR the grid it returns carries the requested tail probability on both sides, measured with the
+    closed-form tail -- a grid that silently ends somewhere else is a violation."""
+    from stepmeasure import build_model
+    u = rng.uniform
+    specs = list(HEAVY_SPECS)
+    for _ in range(3 if not thorough else 16):
+        specs.append({"family": "CGMY", "kwargs": dict(c=u(0.1, 1.5), g=10 ** u(-2, 1), m=10 ** u(-2, 1), y=rng.choice([-0.5, 0.3, 0.5, 0.8, 1.2, 1.5]))})
+        specs.append({"family": "HEM", "kwargs": dict(sigma=0.1, p=u(0.2, 0.8), eta1=10 ** u(-1.5, 1.3), eta2=10 ** u(-1.5, 1.3), intensity=u(1, 6))})
+    probs = [0.99999, 0.999999, 0.999, 0.9999]
+    for k, spec in enumerate(specs):
+        model = build_model(spec)
+        for p in (probs if thorough else [probs[0], probs[1 + k % 3]]):
+            for ctor in ("CTMCUniformGrid", "CTMCGridGeometric", "CTMCCredit"):
+                if ctor == "CTMCCredit" and p != 0.99999:
+                    continue
+                h = 0.1 if k % 2 == 0 else 0.05
+                args = {"model": spec, "h": h, "truncation_probability": p}
+                try:
+                    with warnings.catch_warnings():
+                        warnings.simplefilter("ignore")
+                        with np.errstate(all="ignore"):
+                            g = _build_for_tail(ctor, model, h, p)
+                except Exception as e:  # noqa
+                    res.count(("heavy", ctor, k, p), nontrivial=False, kind=f"heavy tail {ctor}")
+                    note_exception(res, "heavy_tail_outcome", e, ctor, args)
+                    continue
+                res.count(("heavy", ctor, json.dumps(spec, sort_keys=True), p, h), kind=f"heavy tail {ctor}")
+                res.bump("heavy_tail_outcome", "grid")
+                why = grid_reason(g)
+                if why:
+                    viol(f"{ctor} (heavy-tailed model) returns a malformed grid: " + why.split(":")[-1].strip()[:60], kind="tail-indep",
+                         ctor=ctor, spec=spec, h=h, p=p, args=args, reason=why)
+                    continue
+                _independent_tail(res, viol, spec, h, g, ctor, args, p)
+
+
+# ------------------------------------------------------------------------------------------ wave 5: probability-step n-d, SDE branch
+def _probstep_nd_and_sde(res, rng, viol, thorough):
+    """(i) CTMCGridProbabilityStep with dimension 2 and 3: the same axis for every dimension, well formed, refine nests with the
+    grid's own middle on every axis.  (ii) the LevyDrivenSDEModel branch of compute_truncation (model.driver...): a geometric
+    grid built from the SDE model must be the grid built from its driver (1-d LevyModel driver and 2-d copula driver)."""
+    from rpylib.grid.spatial import CTMCGridProbabilityStep, CTMCGridGeometric, compute_truncation
+    from rpylib.model.levydrivensde.levydrivensde import LevyDrivenSDEModel
+    from stepmeasure import real_model_specs, build_model, build_copula_model
+    specs = real_model_specs(rng)
+    spec = specs[0]                                                   # HEM: closed-form mass, fast root searches
+    for dim in (2, 3):
+        h, pstep = 0.05, 0.1
+        args = {"model": spec, "h": h, "p": pstep, "dim": dim}
+        try:
+            with warnings.catch_warnings():
+                warnings.simplefilter("ignore")
+                model = build_model(spec)
+                g = CTMCGridProbabilityStep(h=h, model=model, minimum_probability_step=pstep, dimension=dim)
+                res.count(("probstep-nd", dim), kind=f"CTMCGridProbabilityStep dim={dim}")
+                if len(g.axes) != dim or any(not np.array_equal(a, g.axes[0]) for a in g.axes):
+                    viol("CTMCGridProbabilityStep: the axes of an n-d grid differ / wrong dimension", kind="ctor",
+                         ctor="CTMCGridProbabilityStep", args=args)
+                _probstep_monitor(res, viol, model, g, pstep, args)
+                _check_grid_and_refine(res, viol, g, "CTMCGridProbabilityStep", args, n_refine=1, exact_mid=False)
+                if float(g.h) == h / 2:                                   # refined once: every gap now carries p/2
+                    _probstep_monitor(res, viol, model, g, pstep / 2, args, refined=True)
+        except Exception as e:  # noqa
+            note_exception(res, "probstep_outcome", e, "CTMCGridProbabilityStep", args)
+    for drv_specs in ([specs[0]], [specs[1]], [specs[0], specs[1]], [specs[3], specs[0], specs[1]]):
+        dim = len(drv_specs)
+        driver = build_model(drv_specs[0]) if dim == 1 else build_copula_model(drv_specs, "clayton")
+        sde = LevyDrivenSDEModel(driver=driver, x0=(0.0 if dim == 1 else np.zeros(dim)))
+        for h, p, nb in ((0.05, 0.99999, 4), (0.1, 0.999, 3)):
+            args = {"models": drv_specs, "h": h, "truncation_probability": p, "nb": nb, "sde": True}
+            try:
+                with warnings.catch_warnings():
+                    warnings.simplefilter("ignore")
+                    g_sde = CTMCGridGeometric(h=h, model=sde, nb_of_points_on_each_side=nb, truncation_probability=p)
+                    g_drv = CTMCGridGeometric(h=h, model=driver, nb_of_points_on_each_side=nb, truncation_probability=p)
+                    lr = compute_truncation(sde, h, p)
+            except Exception as e:  # noqa
+                note_exception(res, "sde_branch_outcome", e, "CTMCGridGeometric(LevyDrivenSDEModel)", args)
+                continue
+            res.count(("sde-branch", dim, h, p), kind=f"CTMCGridGeometric(LevyDrivenSDEModel) dim={dim}")
+            res.bump("sde_branch_outcome", "grid")
+            why = grid_reason(g_sde)
+            if why:
+                viol("CTMCGridGeometric(LevyDrivenSDEModel) returns a malformed grid: " + why.split(":")[-1].strip()[:60], kind="sde",
+                     reason=why, **args)
+                continue
+            if len(g_sde.axes) != dim or any(not np.array_equal(a, b) for a, b in zip(g_sde.axes, g_drv.axes)) \
+                    or tuple(map(float, lr)) != tuple(map(float, g_sde.truncations[0])):
+                viol("the grid of a LevyDrivenSDEModel is not the grid of its driver (compute_truncation, SDE branch)", kind="sde", **args)
+                continue
+            GEOM_R_GRIDS.append((float(lr[0]), h, float(lr[1]), nb, [float(x) for x in g_sde.axes[0]]))
+            if dim == 1:
+                _independent_tail(res, viol, drv_specs[0], h, g_sde, "CTMCGridGeometric(LevyDrivenSDEModel)", args, p)
+            else:
+                # l = min of the margins' left bounds, r = max of the right bounds: the margin attaining it keeps exactly p
+                import c13_tails as T
+                cov = [T.coverage(sp, h, float(lr[0]), float(lr[1])) for sp in drv_specs]
+                tol = max(1e-9, 0.02 * (1 - p))
+                if abs(min(c[0] for c in cov) - p) > tol or abs(min(c[1] for c in cov) - p) > tol:
+                    viol("n-d SDE model: the grid's end points do not carry the requested truncation probability (closed-form tails)",
+                         kind="sde", left=float(min(c[0] for c in cov)), right=float(min(c[1] for c in cov)), **args)
+
 
 
 def _check_grid_and_refine(res, viol, grid, ctor, args, n_refine=2, exact_mid=True, finding=None):
@@ -393,7 +746,7 @@ def _tail_monitor(res, viol, model, grid, ctor, args, target=0.99999, finding=No
              left=float(pl), right=float(pr), target=target, **({"finding": finding} if finding else {}))
 
 
-def _probstep_monitor(res, viol, model, grid, pstep, args):
+def _probstep_monitor(res, viol, model, grid, pstep, args, refined=False):
     """per-gap probability of a probability-step grid (level 0): every interior gap beyond [0, h] carries the requested
     probability p of the jump measure (two root searches of p/2 each, xtol 1e-10); the last two gaps of a side are built
     by extrapolation when the tail is exhausted and are exempt.  Monitor with tolerance 1e-6."""
@@ -403,15 +756,18 @@ def _probstep_monitor(res, viol, model, grid, pstep, args):
     lam = float(grid.intensity_of_jumps)
     off = []
     with np.errstate(all="ignore"):
-        for k in list(range(0, o - 1)) + list(range(o + 1, len(ax) - 1)):
+        # refined=True: the grid was refined once (C13_probstep_refine: every gap then carries pstep = p/2); the two halves of the
+        # old gaps [-h, 0], [0, h] and twice as many end gaps are exempt
+        near, ends = (2, 3) if refined else (1, 1)
+        for k in list(range(0, o - near)) + list(range(o + near, len(ax) - 1)):
             pk = float(nu.integrate(ax[k], ax[k + 1])) / lam
-            exempt = k <= 1 or k >= len(ax) - 3
+            exempt = k <= ends or k >= len(ax) - 2 - ends
             res.bump("probstep_gap", "exempt end gap" if exempt else ("p" if abs(pk - pstep) <= 1e-6 else "off"))
             if not exempt and abs(pk - pstep) > 1e-6:
                 off.append((k, pk))
     if off:
-        viol("CTMCGridProbabilityStep: an interior gap does not carry the requested step probability", kind="ctor",
-             ctor="CTMCGridProbabilityStep", args=args, gaps=[[k, pk] for k, pk in off[:5]], requested=pstep)
+        viol("CTMCGridProbabilityStep: an interior gap does not carry the requested step probability" + (" after refine (p/2)" if refined else ""),
+             kind="ctor", ctor="CTMCGridProbabilityStep", args=args, gaps=[[k, pk] for k, pk in off[:5]], requested=pstep, refined=refined)
 
 
 def _probstep_massless_gaps(res, viol):
@@ -512,7 +868,12 @@ def _oracle_constructors(res, rng, scale, viol):
                     lr = compute_truncation(model, h)
                 except Exception:  # noqa
                     lr = None
-                if lr is not None and all(abs(v / h - round(v / h)) > 1e-9 for v in lr) and lr[0] < 0 < lr[1]:
+                # the model takes int(|l|/h) as the floor of the EXACT quotient; the code floors the ROUNDED float quotient.  They
+                # differ only if the float division rounds across an integer: decided exactly (no tolerance band) and counted
+                if lr is not None and lr[0] < 0 < lr[1]:
+                    same_floor = all(int(abs(v) / h) == math.floor(abs(Fr(float(v))) / Fr(h)) for v in lr)
+                    res.bump("uniform_int_division", "float floor == exact floor" if same_floor else "float division rounds across an integer")
+                if lr is not None and lr[0] < 0 < lr[1] and same_floor:
                     try:
                         gu = CTMCUniformGrid(h=h, model=model)
                         exp = (gu.axes[0].tolist(), origin_indices(gu)[0]) if len(gu.axes[0]) <= 400 else "skip"
@@ -526,6 +887,7 @@ def _oracle_constructors(res, rng, scale, viol):
                     res.count(("uniform", fam, h, rep), kind="CTMCUniformGrid")
                     res.bump("uniform_outcome", "grid")
                     _tail_monitor(res, viol, model, g, "CTMCUniformGrid", args, finding="F-C13-5")
+                    _independent_tail(res, viol, spec, h, g, "CTMCUniformGrid", args, 0.99999)
                     _check_grid_and_refine(res, viol, g, "CTMCUniformGrid", args, finding="F-C13-1")
                 except Exception as e:  # noqa
                     res.count(("uniform", fam, h, rep), nontrivial=False, kind="CTMCUniformGrid")
@@ -535,6 +897,10 @@ def _oracle_constructors(res, rng, scale, viol):
                     try:
                         g = CTMCGridGeometric(h=h, model=model, nb_of_points_on_each_side=nb)
                         res.count(("geometric", fam, h, nb, rep), kind="CTMCGridGeometric")
+                        if fam != "STEP" and rep == 0:
+                            GEOM_R_GRIDS.append((float(g.truncations[0][0]), h, float(g.truncations[0][1]), nb, [float(x) for x in g.axes[0]]))
+                            if nb == 3:
+                                _independent_tail(res, viol, spec, h, g, "CTMCGridGeometric", dict(args, nb=nb), 0.99999)
                         if nb == 3:
                             _tail_monitor(res, viol, model, g, "CTMCGridGeometric", dict(args, nb=nb))
                         _check_grid_and_refine(res, viol, g, "CTMCGridGeometric", dict(args, nb=nb), finding="F-C13-4")
@@ -570,8 +936,7 @@ def _oracle_constructors(res, rng, scale, viol):
                         _check_grid_and_refine(res, viol, g, "CTMCGridProbabilityStep", {"model": spec, "h": h, "p": pstep},
                                                n_refine=2 if h == 0.05 else 1, exact_mid=False)
                     except Exception as e:  # noqa
-                        res.bump("probstep_outcome", type(e).__name__)
-                        res.notes.append(f"CTMCGridProbabilityStep({fam}) raised {type(e).__name__}: {str(e)[:120]}")
+                        note_exception(res, "probstep_outcome", e, "CTMCGridProbabilityStep", {"model": spec, "h": h, "p": pstep})
         # copula models: shared axes for every margin
         sp = real_model_specs(rng)
         cm = build_copula_model([sp[0], sp[1]], "clayton")
@@ -652,6 +1017,23 @@ def replay(path):
             bad = abs(min(lefts) - p) > max(1e-9, 0.02 * (1 - p)) or abs(min(rights) - p) > max(1e-9, 0.02 * (1 - p))
             print("still fails" if bad else "no failure on replay")
             return 1 if bad else 0
+        elif k == "tail-indep":
+            import c13_tails as T
+            spec, h, p = data["spec"], data["h"], data["p"]
+            try:
+                g = _build_for_tail(data["ctor"].split("(")[0], build_model(spec), h, p)
+            except ValueError as e:
+                print("constructor refuses (ValueError):", e)
+                return 0
+            l, r = (float(v) for v in g.truncations[0])
+            cl, cr = T.coverage(spec, h, l, r)
+            print("bounds", (l, r), "requested", p, "closed-form coverage left", float(cl), "right", float(cr))
+            bad = abs(cl - p) > max(1e-9, 0.02 * (1 - p)) or abs(cr - p) > max(1e-9, 0.02 * (1 - p))
+            print("still fails" if bad else "no failure on replay")
+            return 1 if bad else 0
+        elif k == "uniform-exact":
+            with _patched_truncation(data["l"], data["r"]):
+                g = CTMCUniformGrid(h=data["h"], model=dummy_model(data["dim"]))
         elif k == "ctor":
             a = data["args"]
             model = build_model(a["model"]) if "model" in a else None
